@@ -215,16 +215,15 @@ impl<T: Qcow2IoOps> Qcow2Dev<T> {
         let mut len = buf.len();
         let old_offset = offset;
         let old_len = len;
-        let single =
-            (offset >> info.cluster_bits()) == ((offset + (len as u64) - 1) >> info.cluster_bits());
 
         if offset >= vsize {
             if !info.is_back_file() {
                 return Err("read_at eof".into());
             } else {
                 // the top device is asking for read, which is usually
-                // caused by top device resize, so simply fake we provide
-                // data requested
+                // caused by top device resize: everything beyond the end
+                // of this backing image reads as zero
+                zero_buf!(buf);
                 return Ok(buf.len());
             }
         }
@@ -243,7 +242,9 @@ impl<T: Qcow2IoOps> Qcow2Dev<T> {
 
         log::debug!("read_at: offset {:x} len {} >>>", offset, buf.len());
 
-        let extra = if offset + (len as u64) > vsize {
+        // `offset < vsize` here, so the subtraction cannot underflow and no
+        // `offset + len` is computed that could overflow
+        let extra = if (len as u64) > vsize - offset {
             // Clamp to the in-image portion: only `vsize - offset` bytes are
             // backed by data, rounded down to a block boundary.
             len = ((vsize - offset) as usize) & !bs_mask;
@@ -257,6 +258,19 @@ impl<T: Qcow2IoOps> Qcow2Dev<T> {
         };
 
         debug_assert!((len & bs_mask) == 0);
+
+        // only the clamped part is read; for a backing image the remainder
+        // (beyond its end) reads as zero
+        let (buf, tail) = buf.split_at_mut(len);
+        if extra > 0 {
+            zero_buf!(tail);
+        }
+        if len == 0 {
+            return Ok(extra);
+        }
+
+        let single =
+            (offset >> info.cluster_bits()) == ((offset + (len as u64) - 1) >> info.cluster_bits());
 
         let done = if single {
             let l2_entry = self.get_l2_entry(offset).await?;
